@@ -124,6 +124,22 @@ PROPS = {
              "the model's net (or not at all when balanced / moved-from / checking off).",
         note="Exit-time reports of the stateless allocators are checked by deathsim (same property).",
         design="3/C15"),
+    "C17": dict(
+        engine="histsim", profile="C17", builds=["dbg", "dbg16", "rwdi"], level="fault_enumeration",
+        quick_s=45, thorough_s=600,
+        technique="deterministic simulation with fault injection: the fault is a corrupting write into a fence "
+                  "at a drawn instant of a history; complete side x offset x value tables for six node sizes; "
+                  "fill patterns as invariants of all histories",
+        text="For heap/malloc/new/virtual_memory allocators with fences 8 and 16 a byte is written into a "
+             "fence of a live node at an arbitrary point of a history and the node released later: exactly one "
+             "report per corrupted fence with the node, its size and the lowest corrupted address; the table "
+             "side x offset x value(!=0xFD) is enumerated completely for node sizes 1,7,8,16,24,100 (sampled "
+             "offsets for the page-sized fences of virtual memory); never a report without corruption (fence 0 "
+             "build included). Fill: every byte handed out reads 0xCD, every byte released to a pool reads 0xDD "
+             "except the link bytes.",
+        note="Effective fence of the low-level allocators is max_alignment (one page for virtual memory) "
+             "whenever DEBUG_FENCE != 0; the handler installed by the harness returns instead of aborting.",
+        design="3/C17"),
     "C18": dict(
         engine="histsim", profile="C18", builds=["dbg", "rwdi", "rel"], level="exploration",
         quick_s=45, thorough_s=600,
